@@ -14,8 +14,8 @@ must equal sum k_i P_i:
   * two-limb scalars (70-bit field): windows that straddle the limb boundary.
 
 Independent of how the kernels are organised (helpers, closures, iterator chains).  The structural rules (R-WINDOW, R-DIGITS,
-R-BUCKETS, R-FLUSH, R-DIGITALIGN) stay; this clause adds the value.  Supplementary: no verdict when a body cannot be
-followed; a missing anchor fails closed."""
+R-BUCKETS, R-FLUSH, R-DIGITALIGN) stay; this clause adds the value.  The `parallel` cfg twins are evaluated as well: rayon's order-preserving adaptors are read as their serial namesakes.
+Supplementary: no verdict when a body cannot be followed; a missing anchor fails closed."""
 from arklib import symex as SX
 from arklib.poly import Q
 from rules import c07_dft, c08_arith
@@ -136,6 +136,24 @@ def _first(nlimbs):
             return NotImplemented
         md.on(SX.by(None, ("index", "index_mut")), index_oob)
         md.on(SX.by(None, "div_ceil"), lambda ex, st, fr, t, a: -(-ex.deref(a[0]) // ex.deref(a[1])) if len(a) == 2 and all(isinstance(ex.deref(x), int) and not isinstance(ex.deref(x), bool) for x in a) and ex.deref(a[1]) else NotImplemented)
+        # rayon's data-parallel adaptors denote the same sequence as their serial namesakes (order-preserving map / collect;
+        # the reductions used here are over commutative monoids, C14 R-REDUCE): the parallel cfg twins are evaluated too
+        def alias(name):
+            def h(ex, st, fr, t, a):
+                t2 = dict(t)
+                t2["f"] = dict(t["f"], name=name)
+                return ex.models.apply(ex, st, fr, t2, a)
+            return h
+        for par, ser in (("into_par_iter", "into_iter"), ("par_iter", "iter"), ("par_iter_mut", "iter_mut"), ("par_chunks", "chunks"),
+                         ("par_chunks_mut", "chunks_mut"), ("par_chunks_exact", "chunks_exact")):
+            md.on(SX.by(None, par), alias(ser))
+
+        def into_iter_range(ex, st, fr, t, a):
+            d = ex.deref(a[0]) if len(a) == 1 else None
+            if isinstance(d, SX.Obj) and isinstance(d.adt, str) and d.adt.endswith("ops::range::Range") and all(isinstance(d.fields.get(i), int) for i in (0, 1)):
+                return H["pyiter"](list(range(d.fields[0], d.fields[1])))
+            return NotImplemented
+        md.on(SX.by(None, "into_par_iter"), into_iter_range)
         c08_arith._first(md, H)
     return first
 
@@ -184,16 +202,17 @@ def cases(tier):
 def check_msm_value(res, facts, tier):
     rule = res.rule("R-MSM.value", "msm_bigint / msm_bigint_wnaf return sum k_i P_i: all 5-bit scalars and all 1024 pairs with window 3, 33 bases with window 6, two-limb scalars [evaluation in the exponent domain: bases symbols, scalars concrete]", 0)
     proved = set()
-    for name in ("msm_bigint", "msm_bigint_wnaf"):
-        fns = [f for f in facts.fns(unit="ws", crate="ark_ec") if f.name == name and f.kind != "Closure" and not f.default_of and not f.impl]
-        key = "ark_ec|%s|value" % name
+    units = [u for u in ("ws", "par") if any(True for _ in facts.fns(unit=u, crate="ark_ec"))]
+    for unit, name in [(u, nm) for u in units for nm in ("msm_bigint", "msm_bigint_wnaf")]:
+        fns = [f for f in facts.fns(unit=unit, crate="ark_ec") if f.name == name and f.kind != "Closure" and not f.default_of and not f.impl]
+        key = "ark_ec|%s|value" % name if unit == "ws" else "ark_ec|%s|%s|value" % (unit, name)
         if not fns:
             rule.bad(key, "anchor missing")
             continue
         fn = fns[0]
         verdict, n = None, 0
         for bits, scalars, nl in cases(tier):
-            got, why = evaluate(facts, fn, "ws", bits, scalars, nl)
+            got, why = evaluate(facts, fn, unit, bits, scalars, nl)
             if got == "panic":
                 verdict = ("bad", "scalars %s over a %d-bit scalar field: the kernel panics (%s)" % (scalars[:6], bits, why))
                 break
@@ -209,7 +228,8 @@ def check_msm_value(res, facts, tier):
             n += 1
         if verdict is None:
             rule.ok(key, "%d scalar vectors: result = sum k_i P_i" % n, fn.loc)
-            proved.add(name)
+            if unit == "ws":
+                proved.add(name)
         elif verdict[0] == "bad":
             rule.bad(key, verdict[1], fn.loc)
         else:
